@@ -127,6 +127,9 @@ ben("B23", ["C20"], "CLI: -o and -f take plain paths; pathlib reads the document
 ben("B24", ["C20"], "CLI: the query file is read as utf-8-sig (a byte-order mark at its start is not part of the query)", [
     (P + "cli.py", '        type=argparse.FileType(mode="r"),\n        help="Text file containing a JSONPath expression.",', '        type=argparse.FileType(mode="r", encoding="utf-8-sig"),\n        help="Text file containing a JSONPath expression.",'),
 ])
+ben("B26", ["C16", "C14", "C17"], "pure helpers memoised with functools.lru_cache (the I-Regexp translation; a process-wide cache of a pure function of its argument)", [
+    (P + "function_extensions/_pattern.py", "from typing import List\n\n\ndef map_re(pattern: str) -> str:\n", "from functools import lru_cache\nfrom typing import List\n\n\n@lru_cache(maxsize=64)\ndef map_re(pattern: str) -> str:\n"),
+])
 
 
 def apply_edits(root: str, edits: List[Edit]) -> None:
